@@ -363,6 +363,19 @@ fn main() {
             let sig_txt = format!("fn {}({}) {} {{ }}", name, params, if ret.is_empty() { String::new() } else { format!("-> {}", ret) });
             let mut f: syn::ItemFn = syn::parse_str(&sig_txt).unwrap_or_else(|e| lost(&format!("slice {}: bad signature `{}`: {}", name, sig_txt, e)));
             f.block.stmts = stmts;
+            // a slice of a METHOD becomes a free function: `self` is renamed to the parameter named in `self_as`
+            if let Some(sa) = sl["self_as"].as_str() {
+                fn rename(ts: proc_macro2::TokenStream, to: &str) -> proc_macro2::TokenStream {
+                    ts.into_iter().map(|tt| match tt {
+                        proc_macro2::TokenTree::Ident(i) if i == "self" => proc_macro2::TokenTree::Ident(proc_macro2::Ident::new(to, i.span())),
+                        proc_macro2::TokenTree::Group(g) => { let mut ng = proc_macro2::Group::new(g.delimiter(), rename(g.stream(), to)); ng.set_span(g.span()); proc_macro2::TokenTree::Group(ng) }
+                        other => other,
+                    }).collect()
+                }
+                let blk = f.block.clone();
+                let ts = rename(quote::ToTokens::to_token_stream(&blk), sa);
+                f.block = Box::new(syn::parse2(ts).unwrap_or_else(|e| lost(&format!("slice {}: self_as renaming failed: {}", name, e))));
+            }
             if !tail.is_empty() {
                 let te: syn::Expr = syn::parse_str(tail).unwrap_or_else(|e| lost(&format!("slice {}: bad tail: {}", name, e)));
                 f.block.stmts.push(syn::Stmt::Expr(te, None));
